@@ -152,6 +152,56 @@ func TestC04Socket(t *testing.T) {
 	kit.Run(t, kit.Prop[c04sCase]{ID: "C04", Part: "TestC04Socket", Gen: genC04Socket, Check: softRetry(checkC04Socket)})
 }
 
+// ---------- C06 on a connection that lives longer than any per-connection timer a change might arm once ----------
+
+// TestC06LongLived: two terminals (2013 and 2019 layout) stay connected for 11 s and send a heartbeat at 0 s, 5.5 s
+// and 11 s; each must be answered with the next platform serial, and a platform command at the end still reaches them.
+func TestC06LongLived(t *testing.T) {
+	kit.Enum(t, "C06", "TestC06LongLived", "TestC06", func(col *kit.Collector) (any, error) {
+		sc := Scenario{MaxMs: 40000}
+		ids := []identity{{Digits: "13800130021"}, {Digits: "13800130022", V2019: true}}
+		for i, id := range ids {
+			sc.Actors = append(sc.Actors, Actor{Name: fmt.Sprintf("t%d", i), Kind: "terminal", Steps: []Step{{Op: "dial"}, {Op: "respond", Rules: []Rule{{Behaviour: "answer"}}},
+				{Op: "write", Hex: frame(id, 0x0002, 1, nil)}, {Op: "wait_frames", N: 1, DeadlineMs: 5000}, {Op: "pause", PauseUs: 5_500_000},
+				{Op: "write", Hex: frame(id, 0x0002, 2, nil)}, {Op: "wait_frames", N: 2, DeadlineMs: 3000}, {Op: "pause", PauseUs: 5_500_000},
+				{Op: "write", Hex: frame(id, 0x0002, 3, nil)}, {Op: "wait_frames", N: 3, DeadlineMs: 3000}, {Op: "barrier", Barrier: "old", Parties: 3},
+				{Op: "barrier", Barrier: "probed", Parties: 3}, {Op: "close", Mode: "fin"}}})
+		}
+		sc.Actors = append(sc.Actors, Actor{Name: "platform", Kind: "platform", Steps: []Step{{Op: "pause", PauseUs: 10_900_000}, {Op: "barrier", Barrier: "old", Parties: 3}, // (a barrier waits 5 s at most)
+			{Op: "send", Key: ids[0].key(), Cmd: 0x8104, Body: []byte{1}, TimeoutMs: 1500, CallID: 1}, {Op: "send", Key: ids[1].key(), Cmd: 0x8104, Body: []byte{2}, TimeoutMs: 1500, CallID: 2},
+			{Op: "barrier", Barrier: "probed", Parties: 3}}})
+		h := runScenario(sc)
+		res := kit.Result{NT: true, Labels: []string{"connection_older_than_10s"}}
+		if !childVerdict(h, &res) {
+			return "long-lived connection scenario", res.Err
+		}
+		for i := range ids {
+			frames, _, bad := serverFrames(h, fmt.Sprintf("t%d", i))
+			if bad != "" {
+				return nil, kit.Fail("%s", bad)
+			}
+			var seen []string
+			for k, f := range frames {
+				seen = append(seen, fmt.Sprintf("%04x/%d", f.ID, f.Serial))
+				if int(f.Serial) != k {
+					return map[string]any{"frames": seen}, kit.Fail("terminal %d: frame %d carries platform serial %d", i, k, f.Serial)
+				}
+			}
+			if fmt.Sprint(seen) != "[8001/0 8001/1 8001/2 8104/3]" {
+				return map[string]any{"frames": seen}, kit.Fail("terminal %d stayed connected for 11 s (heartbeats at 0 s, 5.5 s, 11 s, then a command): it received %v, want three general responses and the command", i, seen)
+			}
+		}
+		for _, e := range h.Events {
+			if e.Kind == "call_result" && (e.Err != "" || !e.Flag) {
+				return nil, kit.Fail("the command for a terminal connected for 11 s returned %q", e.Err)
+			}
+		}
+		col.RecordHash(1, res, func() any { return map[string]any{"terminals": 2, "seconds": 11} })
+		col.RecordHash(2, kit.Result{NT: true, Labels: []string{"connection_older_than_10s"}}, nil)
+		return nil, nil
+	})
+}
+
 // ---------- C06 serial wrap: more than 65 536 replies on one connection (thorough) ----------
 
 func TestC06Wrap(t *testing.T) {
